@@ -42,6 +42,24 @@ func (fc *fnCtx) unsupported(format string, args ...interface{}) {
 const maxPaths = 4000
 const maxInlineDepth = 6
 
+var dbgSeen = map[string]int{}
+
+// calleeName: the name a hint target `call NAME#K` refers to (method or function name without type arguments)
+func calleeName(c *ssa.CallCommon) string {
+	name := ""
+	if c.IsInvoke() {
+		name = c.Method.Name()
+	} else if callee := c.StaticCallee(); callee != nil {
+		name = callee.Name()
+	} else if bi, ok := c.Value.(*ssa.Builtin); ok {
+		name = bi.Name()
+	}
+	if i := strings.Index(name, "["); i >= 0 {
+		name = name[:i]
+	}
+	return name
+}
+
 func (fc *fnCtx) newFrame(fn *ssa.Function, parent *frame) *frame {
 	fr := &frame{fn: fn, parent: parent, loops: findLoops(fn), callOrd: map[ssa.Instruction]int{}}
 	fr.key = fc.e.keyOf(fn)
@@ -56,6 +74,59 @@ func (fc *fnCtx) newFrame(fn *ssa.Function, parent *frame) *frame {
 			case *ssa.Call, *ssa.Go, *ssa.Defer:
 				n++
 				fr.callOrd[ins] = n
+				if os.Getenv("VERIF_CALLS") != "" && parent == nil {
+					nm := ""
+					if ci, ok := ins.(ssa.CallInstruction); ok {
+						nm = calleeName(ci.Common())
+					}
+					if nm != "" {
+						dbgSeen[fr.key+" "+nm]++
+					}
+					fmt.Fprintf(os.Stderr, "CALLMAP\t%s\t%d\t%s\t%d\n", fr.key, n, nm, dbgSeen[fr.key+" "+nm])
+				}
+			}
+		}
+	}
+	if fr.spec != nil && len(fr.spec.NamedHints) > 0 && !fr.spec.namedDone {
+		// resolve NAME#K hint targets to call ordinals of this body
+		fr.spec.namedDone = true
+		seen := map[string]int{}
+		resolved := map[string]bool{}
+		for _, b := range fn.Blocks {
+			for _, ins := range b.Instrs {
+				ci, ok := ins.(ssa.CallInstruction)
+				if !ok {
+					continue
+				}
+				name := calleeName(ci.Common())
+				if name == "" {
+					continue
+				}
+				seen[name]++
+				for _, pre := range []string{"", "-"} {
+					key := fmt.Sprintf("%s%s#%d", pre, name, seen[name])
+					hs := fr.spec.NamedHints[key]
+					if len(hs) == 0 {
+						continue
+					}
+					resolved[key] = true
+					n := fr.callOrd[ins]
+					if pre == "-" {
+						n = -n
+					}
+					if fr.spec.Hints == nil {
+						fr.spec.Hints = map[int][]*Clause{}
+					}
+					for _, h := range hs {
+						h.Ord = len(fr.spec.Hints[n]) + 1
+						fr.spec.Hints[n] = append(fr.spec.Hints[n], h)
+					}
+				}
+			}
+		}
+		for key, hs := range fr.spec.NamedHints {
+			if !resolved[key] {
+				fc.contractError(nil, hs[0], fmt.Sprintf("hint target call %s does not exist in %s", strings.TrimPrefix(key, "-"), fr.key))
 			}
 		}
 	}
@@ -297,6 +368,9 @@ func splitTop(s string) []string {
 }
 
 func (fc *fnCtx) emitQ(st *State, name, kind, clause, loc, goal string, props []string, vacuity bool) {
+	if fc.interf && kind != "ipost" && kind != "lockinv" {
+		return // the interference pass re-executes the body only for its own obligations
+	}
 	o := fc.e.oblByName[name]
 	if o == nil {
 		o = &Obligation{Name: name, Func: fc.key, Kind: kind, Clause: clause, Loc: loc, Props: props, Vacuous: vacuity}
